@@ -401,10 +401,22 @@ func c25LimitsAndSweep(c *core.Ctx) {
 		if evict == nil || lst == nil {
 			c.Undecided("C25/swept-senders-forgotten", "TxCache.sweepSweepable", fn.Pos(), "the eviction call or the sweeping list field was not found")
 		} else {
+			// the value stored is an empty list: make(.., 0, ..), nil, an empty literal or x[:0]
+			emptyList := func(v ssa.Value) bool {
+				if isEmptyBytes(v) {
+					return true
+				}
+				if sl, ok := v.(*ssa.Slice); ok && sl.High != nil {
+					if n, isC := core.ConstInt(sl.High); isC && n == 0 {
+						return true
+					}
+				}
+				return false
+			}
 			resets := func(in ssa.Instruction) bool {
 				if st, ok := in.(*ssa.Store); ok {
 					if fa, ok := st.Addr.(*ssa.FieldAddr); ok && core.FieldOfAddr(fa) == lst {
-						return true
+						return emptyList(st.Val)
 					}
 				}
 				cc := core.CallOf(in)
@@ -415,7 +427,7 @@ func c25LimitsAndSweep(c *core.Ctx) {
 				hit := false
 				core.Instrs(cc.StaticCallee(), func(in2 ssa.Instruction) {
 					if st, ok := in2.(*ssa.Store); ok {
-						if fa, ok := st.Addr.(*ssa.FieldAddr); ok && core.FieldOfAddr(fa) == lst {
+						if fa, ok := st.Addr.(*ssa.FieldAddr); ok && core.FieldOfAddr(fa) == lst && emptyList(st.Val) {
 							hit = true
 						}
 					}
